@@ -85,9 +85,9 @@ extern "C" void w_c10_step(int op, int k0, unsigned w0, int k1, unsigned w1, int
 {
     verif_err_count = 0;
     verif_tpool_havoc();
-    verif_nodes[1].kind = IDENTIFIER; verif_nodes[1].nsub = 0; verif_nodes[1].sym = 0;
+    verif_nodes[1].kind = IDENTIFIER; verif_nodes[1].nsub = 0; verif_nodes[1].symbol = symbol_t(0);
     verif_nodes[1].type = mk_type(k0, w0); type_nondet_deep(verif_nodes[1].type);
-    verif_nodes[2].kind = IDENTIFIER; verif_nodes[2].nsub = 0; verif_nodes[2].sym = 1;
+    verif_nodes[2].kind = IDENTIFIER; verif_nodes[2].nsub = 0; verif_nodes[2].symbol = symbol_t(1);
     verif_nodes[2].type = mk_type(k1, w1); type_nondet_deep(verif_nodes[2].type);
     verif_nodes[2].g_changes = changes1 != 0;
     verif_nodes[0].kind = (kind_t)op;
